@@ -241,14 +241,33 @@ def run(ctx):
                         items[k_], items[k_ + 1] = items[k_ + 1], items[k_]
         _observe_batch(items, recs, ctx)
     _flush(ctx, recs)
+    # ---- far sync lines (round 11, seeded/C08k): "ticks and values are preserved for any digit count" holds for TS lines and
+    # for tempo lines other than the first just as for anchors - as long as the TIME of the tick is one the library can hold,
+    # which at 120 BPM and 192 ticks per beat is the case up to ~3*10^16 ticks.  Ticks of 10-15 digits, increasing.
+    for sec in range(ctx.pick(12, 200)):
+        items, t = [], 0
+        for j in range(r.choice([3, 6, 12])):
+            t += r.choice([10**9, 10**11, 1440000000000, 1440000000001, 10**13, 7 * 10**13, 10**14, 3 * 10**14]) + r.randrange(1000)
+            if t >= 10**15:
+                break
+            kind = r.choice(["TS", "TS", "B", "A"])
+            if kind == "B":
+                items.append(_mk(f"F{sec}-{j}", "B", str(t), n=str(r.choice([120000, 999999999, 60000, 240000]))))
+            elif kind == "TS":
+                items.append(_mk(f"F{sec}-{j}", "TS", str(t), u=str(r.randrange(1, 33)), l=r.choice([None, 1, 2, 3])))
+            else:
+                items.append(_mk(f"F{sec}-{j}", "A", str(t), us=str(r.randrange(0, 10**12))))
+        if items:
+            _observe_batch(items, recs, ctx)
+    _flush(ctx, recs)
     # block boundaries: the section laid out so that boundaries of every power-of-two block size (and of multiples of 1000)
     # fall right behind, just after and inside its lines; > 2^20 characters; through from_file and from_filepath
     from chartgen import judge_block_alignment
     judge_block_alignment(ctx, "C08", ['sync'])
     ctx.assumptions += [
         "'nearest float' is checked as |x - n/1000| <= half an ulp of x, exact except at powers of two where it is marginally weaker",
-        "tempo ticks are small (the batch position) because large ticks at a tempo change would exceed the timedelta range; "
-        "large tick digit strings are exercised on anchor lines, whose time does not depend on the tick",
+        "tempo and time-signature ticks of 10-15 digits are exercised at tempos where the time of the tick stays inside the timedelta range; "
+        "16-18 digit tick strings are exercised on anchor lines, whose time does not depend on the tick",
         "the language part (which strings are accepted) is decided by the product-automaton model shared with C07/C14",
     ]
 
